@@ -416,7 +416,11 @@ func (s *Stream) fillDataToReadBuffer(buf bufferSliceWrapper) error {
 	//stream had closed, which maybe closed by user due to timeout.
 	if s.getStreamState() == uint32(streamClosed) {
 		s.pendingData.clear()
-		s.recvBuf.recycle()
+		// a callback goroutine registered before the close may still be inside OnData reading recvBuf (close() is
+		// waiting for it and recycles recvBuf afterwards in clean()).
+		if atomic.LoadUint32(&s.callbackInProcess) == 0 {
+			s.recvBuf.recycle()
+		}
 		return nil
 	}
 	// Unblock any readers
